@@ -84,7 +84,7 @@ func C02(c *core.Ctx) {
 		}
 	}
 	_ = paths.ResolveRelativePaths(map[string]any{}, "/", nil)
-	tables["paths.resolvers"] = paths.VerifResolverKeys
+	tables["paths.resolvers"] = paths.VerifResolverKeys()
 	var recs []interface{}
 	var names []string
 	for name := range tables {
@@ -165,9 +165,15 @@ func C02(c *core.Ctx) {
 	})
 	// order-sensitive merges: ipam configs, labels, environment across three files
 	pool = append(pool, c02Input{Name: "merge:ipam+labels+env", Dir: wd, Env: map[string]string{}, Files: []namedDoc{
-		{Name: filepath.Join(wd, "m1.yaml"), InMemory: true, Content: "services:\n  a: {image: i, environment: [A=1, B=2, C=3], labels: [x=1, y=2], ports: ['80:80', '81:81', '82:82'], cap_add: [A, B, C], dns: [1.1.1.1, 8.8.8.8]}\n  b: {image: i, depends_on: [a]}\n  c: {image: i, depends_on: [a, b]}\nnetworks:\n  n: {ipam: {config: [{subnet: 10.0.0.0/24}, {subnet: 10.0.1.0/24}]}, labels: [k1=v1, k2=v2, k3=v3]}\n"},
-		{Name: filepath.Join(wd, "m2.yaml"), InMemory: true, Content: "services:\n  a: {environment: {B: 9, D: 4, E: 5}, labels: {y: 9, z: 3, w: 4}, ports: ['83:83', '80:80'], cap_add: [C, D], build: {context: ., ssh: [k1=/p1, k2=/p2, k3=/p3], args: {Z: 1, Y: 2, X: 3}}}\nnetworks:\n  n: {ipam: {config: [{subnet: 10.0.1.0/24, gateway: 10.0.1.1}, {subnet: 10.0.2.0/24}]}, labels: {k2: w2, k4: v4}}\n"},
+		{Name: filepath.Join(wd, "m1.yaml"), InMemory: true, Content: "services:\n  a: {image: i, environment: [A=1, B=2, C=3], labels: [x=1, y=2], ports: ['80:80', '81:81', '82:82'], cap_add: [A, B, C], dns: [1.1.1.1, 8.8.8.8]}\n  b: {image: i, depends_on: [a]}\n  c: {image: i, depends_on: [a, b]}\n  d: {image: i, depends_on: [a, b, c]}\nnetworks:\n  n: {ipam: {config: [{subnet: 10.0.0.0/24}, {subnet: 10.0.1.0/24}]}, labels: [k1=v1, k2=v2, k3=v3]}\n"},
+		{Name: filepath.Join(wd, "m2.yaml"), InMemory: true, Content: "services:\n  a: {environment: {B: 9, D: 4, E: 5}, labels: {y: 9, z: 3, w: 4}, ports: ['83:83', '80:80'], cap_add: [C, D], build: {context: ., ssh: [k1=/p1, k2=/p2, k3=/p3], args: {Z: 1, Y: 2, X: 3}}}\n  d: {depends_on: {a: {condition: service_healthy}, b: {condition: service_completed_successfully, restart: true}, c: {condition: service_started, required: false}}}\nnetworks:\n  n: {ipam: {config: [{subnet: 10.0.1.0/24, gateway: 10.0.1.1}, {subnet: 10.0.2.0/24}]}, labels: {k2: w2, k4: v4}}\n"},
 		{Name: filepath.Join(wd, "m3.yaml"), InMemory: true, Content: "services:\n  a: {extra_hosts: {h1: 1.1.1.1, h2: 2.2.2.2, h3: 3.3.3.3}, sysctls: {a.b: 1, c.d: 2, e.f: 3}, secrets: [s1, s2, s3], volumes: ['v1:/a', 'v2:/b', 'v3:/c']}\nsecrets:\n  s1: {file: ./1}\n  s2: {file: ./2}\n  s3: {file: ./3}\nvolumes: {v1: {}, v2: {}, v3: {}}\n"}}})
+	// env files shared by several services after per-service files, with references between them
+	for f, body := range map[string]string{"api.env": "ROLE=api\nPORT=1\n", "worker.env": "ROLE=worker\nPORT=2\n", "cron.env": "ROLE=cron\n", "shared.env": "QUEUE=jobs-${ROLE}\nADDR=host:${PORT:-0}\n"} {
+		_ = os.WriteFile(filepath.Join(wd, f), []byte(body), 0o644)
+	}
+	pool = append(pool, c02Input{Name: "envfiles:shared-after-own", Dir: wd, Env: map[string]string{}, Files: []namedDoc{{Name: filepath.Join(wd, "e.yaml"), InMemory: true,
+		Content: "services:\n  api: {image: i, env_file: [api.env, shared.env]}\n  worker: {image: i, env_file: [worker.env, shared.env]}\n  cron: {image: i, env_file: [cron.env, shared.env], label_file: [shared.env]}\n  plain: {image: i, env_file: [shared.env]}\n"}}})
 	c.Set("input_pool", len(pool))
 
 	type ev struct {
